@@ -137,8 +137,10 @@ def _run_case(case):
     # sampling from one with scalar parameters would change the shape of x, which no driver does
     dists = [i for i in ("d.rev", "mvn", "detn") if i in dic]
 
+    extra_leaves = ["tree.heights"] if gname == "time-plain" and "tree.heights" in dic else []
+
     def leaf_values():
-        return {i: dic[i].tensor.detach().clone().tolist() for i in leaves}
+        return {i: dic[i].tensor.detach().clone().tolist() for i in list(leaves) + extra_leaves}
 
     def compare(where, subset_eval, subset_derived, tensors):
         values = leaf_values()
@@ -146,8 +148,19 @@ def _run_case(case):
         C["rebuilds"] += 1
         flip, first = bool(rng.random() < 0.5), bool(rng.random() < 0.5)
         C["read_orders"] = sorted(set(C.get("read_orders", [])) | {"%d%d" % (flip, first)})
+        try:
+            b = observe(fresh, g, subset_eval, subset_derived, tensors, flip, first)
+        except tt.SubjectError:
+            raise
+        except Exception as e:
+            from ..worker import _blame
+
+            if _blame(e) is None and "torchtree" not in __import__("traceback").format_exc():
+                raise
+            # the freshly built copy declines these parameter shapes itself: nothing to compare the primary with
+            C["fresh_copy_declined"] = C.get("fresh_copy_declined", 0) + 1
+            return True
         a = observe(dic, g, subset_eval, subset_derived, tensors, flip, first)
-        b = observe(fresh, g, subset_eval, subset_derived, tensors, flip, first)
         for k in a:
             C["comparisons"] += 1
             x, y = a[k], b[k]
@@ -169,7 +182,7 @@ def _run_case(case):
 
     ok = True
     for step in range(case["length"]):
-        op = str(rng.choice(OPS))
+        op = str(rng.choice(OPS + (["heights-shape"] * 3 if extra_leaves else [])))
         desc = None
         try:
             if op == "assign":
@@ -239,6 +252,17 @@ def _run_case(case):
                     else:
                         oper.reject()
                 desc = "%s step + %s on %s" % (type(oper).__name__, op.split("-")[1], pid)
+            elif op == "heights-shape" and extra_leaves:
+                # the heights of a plain time tree get another sample shape (what Distribution.sample(sample_shape) does to them)
+                h = dic["tree.heights"]
+                base = h.tensor.detach().reshape(-1, h.tensor.shape[-1])[0]
+                S = int(rng.choice([0, 2, 3]))
+                if S:
+                    newv = torch.stack([base * float(f) for f in rng.uniform(0.8, 1.3, S)])
+                else:
+                    newv = base * float(rng.uniform(0.8, 1.3))
+                h.tensor = newv
+                desc = "assign tree.heights with sample shape %s" % ([S] if S else [])
             elif op == "data-edit":
                 pid = str(rng.choice(list(leaves)))
                 p = dic[pid]
